@@ -52,7 +52,19 @@ func verifAbstractVISO(k int, faults bool, shortBudget int) *verifVISO {
 		tmpl := &verifstub.File{Label: verifFileLabels[i], Size: sz, Faults: faults, ShortBudget: shortBudget}
 		a.fileObjs[i] = tmpl
 		a.stubFs.Entries = append(a.stubFs.Entries, &verifstub.Entry{Path: verifFilePaths[i], File: tmpl})
-		files = append(files, fileItem{path: verifFilePaths[i], size: sizeBytes(sz), rLBA: lba})
+		item := fileItem{path: verifFilePaths[i], size: sizeBytes(sz), rLBA: lba}
+		if verifrt.Bool(verifFileLabels[i] + ".alreadyopen") {
+			// an earlier read left this member file open, with its cursor anywhere
+			h := *tmpl
+			h.Path = verifFilePaths[i]
+			h.L = a.stubFs.L
+			h.Pos = verifrt.Int64(verifFileLabels[i] + ".cursor")
+			verifrt.Assume(h.Pos >= 0)
+			verifrt.Assume(h.Pos <= sz)
+			a.stubFs.L.Opened++
+			item.file = &h
+		}
+		files = append(files, item)
 		lba += sizeBytes(sz).sectors()
 	}
 	verifrt.Assume(lba < 1<<30)
@@ -95,7 +107,7 @@ func (a *verifVISO) checkINV(tag string) {
 	}
 }
 
-func verifFileCount() int { return verifrt.Choice("files", 1+verifrt.Bound("C09.maxfiles", 2, 3)) }
+func verifFileCount() int { return verifrt.Choice("files", 1+verifrt.Bound("C09.maxfiles", 1, 2)) }
 
 func VerifC09_ReadAt() {
 	a := verifAbstractVISO(verifFileCount(), false, 0)
@@ -203,7 +215,7 @@ func VerifC09_Seek() {
 // C13 (data half) on generated images: member files may fail or return short reads;
 // an error is allowed, wrong bytes are not.
 func VerifC09_ReadAtFaults() {
-	a := verifAbstractVISO(verifrt.Choice("files", 3), true, 1)
+	a := verifAbstractVISO(verifrt.Choice("files", 1+verifrt.Bound("C09.maxfiles.faults", 1, 2)), true, 1)
 	total := int64(a.v.totalSize)
 	off := verifrt.Int64("off")
 	n := verifrt.Int("n")
